@@ -44,6 +44,19 @@ def dblJson : Dbl Text → Json
   | .inf neg => Json.mkObj [("special", Json.str (if neg then "-inf" else "inf"))]
   | .fin t => Json.mkObj [("fin", textJson t)]
 
+def optJson {α} (f : α → Json) : Option α → Json
+  | some a => Json.mkObj [("ok", f a)]
+  | none => Json.mkObj [("fault", Json.str "Client.ValidationError")]
+
+/-- a format travels as a list of items: a directive letter (string) or a literal code point (number) -/
+def getFmt (j : Json) : Fmt :=
+  (getArr j "fmt").toList.filterMap (fun i =>
+    match i with
+    | .str "Y" => some (.dir .Y) | .str "m" => some (.dir .m) | .str "d" => some (.dir .d)
+    | .str "H" => some (.dir .H) | .str "M" => some (.dir .M) | .str "S" => some (.dir .S)
+    | .num n => some (.lit (Char.ofNat n.mantissa.toNat))
+    | _ => none)
+
 def lexOf (t : String) (s : Text) : Json :=
   match t with
   | "integer" => Json.bool (XsdLex.integer s)
@@ -79,7 +92,23 @@ def step (j : Json) : Json :=
     | some l => Json.mkObj [("ok", Json.arr #[Json.bool l.neg, (l.years : Json), (l.months : Json),
                   Json.str (toString l.micros)])]
     | none => Json.mkObj [("ok", Json.null)]
-  | "uuid.to" => Json.mkObj [("ok", textJson (uuidToText (getNats j "v")))]
+  | "uuid.to" =>
+    let form : UuidForm := match getStr j "form" with | "hex" => .hex | "urn" => .urn | _ => .canonical
+    Json.mkObj [("ok", textJson (uuidToTextAs form (getNats j "v")))]
+  | "hex.to" => Json.mkObj [("ok", textJson (hexenc (getNats j "v")))]
+  | "hex.from" => optJson natsJson (hexdec (getText j "s"))
+  | "b64.to" => Json.mkObj [("ok", textJson (b64enc (getBool j "url") (getNats j "v")))]
+  | "b64.from" => optJson natsJson (b64dec (getBool j "url") (getText j "s"))
+  | "dtf.to" =>
+    outJson textJson (dateTimeToTextFmt G (getBool j "soap") (getFmt j) (getOptInt j "as") (getBool j "same")
+      (getBool j "tzflag") (getDT (getArr j "v")))
+  | "dtf.from" => outJson dtJson (dateTimeFromTextFmt G (getFmt j) (getOptInt j "as") (getText j "s"))
+  | "datef.to" =>
+    let a := getNats j "v"
+    Json.mkObj [("ok", textJson (dateToTextFmt G (getBool j "soap") (getFmt j) ⟨a.getD 0 0, a.getD 1 0, a.getD 2 0⟩))]
+  | "datef.from" =>
+    outJson (fun (d : Date) => Json.arr #[d.y, d.m, d.d]) (dateFromTextFmt F (getFmt j) (getText j "s"))
+  | "fmt.wf" => Json.mkObj [("ok", Json.bool (Fmt.wf (getFmt j)))]
   | "uuid.from" => outJson natsJson (uuidFromText (getText j "s"))
   | "dtc.to" =>
     outJson textJson (dateTimeToTextC (getBool j "soap") (getOptInt j "as") (getBool j "same") (getBool j "tzflag") (getDT (getArr j "v")))
